@@ -41,16 +41,18 @@ def snapshot(d):
     return out
 
 
-def run_inprocess(argv, urandom=None):
-    """-> dict(status, stdout, stderr, before, after, files{rel: text of new/changed regular files})"""
+def run_inprocess(argv, urandom=None, workdir=None):
+    """-> dict(status, stdout, stderr, before, after, files{rel: text of new/changed regular files})
+    workdir: an existing scratch directory to run in (kept afterwards) - for SEQUENCES of invocations in one process"""
     import btc_hd_wallet.__main__ as M
-    d = tempfile.mkdtemp(prefix="vfcli.")
+    d = workdir or tempfile.mkdtemp(prefix="vfcli.")
     old_cwd, old_argv = os.getcwd(), sys.argv
     out, err = io.StringIO(), io.StringIO()
     import random as _random
     saved = (os.urandom, _random._urandom)
     try:
-        prepare(d)
+        if workdir is None:
+            prepare(d)
         before = snapshot(d)
         os.chdir(d)
         sys.argv = ["btc_hd_wallet"] + list(argv)
@@ -75,7 +77,8 @@ def run_inprocess(argv, urandom=None):
         os.urandom, _random._urandom = saved
         sys.argv = old_argv
         os.chdir(old_cwd)
-        shutil.rmtree(d, ignore_errors=True)
+        if workdir is None:
+            shutil.rmtree(d, ignore_errors=True)
 
 
 def _changed_files(d, before, after):
